@@ -66,8 +66,7 @@ def maxHs : Nat := Facts.dtlcp.maxHandshake
 def fuel : Nat := Facts.dtlcp.maxHandshakeFragments
 
 def txConsts : DtlcpTx.Consts :=
-  { defaultPmtu := Facts.dtlcp.txDefaultPmtu, recordHeaderLen := Facts.dtlcp.recordHeaderLen,
-    maxPlaintext := Facts.dtlcp.maxPlaintext, cbcBudgetsPadding := Facts.dtlcp.txCbcBudgetsPadding }
+  DtlcpTx.treeConsts Facts.dtlcp.recordHeaderLen Facts.dtlcp.maxPlaintext
 
 /-! ### kind=fb -/
 
